@@ -71,7 +71,7 @@ func init() {
 
 // ------------------------------------------------------------------ generator
 
-var c35Leaves = []string{"i8", "i16", "i32", "i64", "u8", "u16", "u32", "u64", "f32", "f64", "bool", "str", "bin", "lstr", "lbin", "date32", "tsus", "fsb4", "null"}
+var c35Leaves = []string{"i8", "i16", "i32", "i64", "u8", "u16", "u32", "u64", "f32", "f64", "bool", "str", "bin", "lstr", "lbin", "date32", "tsus", "fsb4", "fsb8", "null"}
 var c35DictVals = []string{"str", "str", "bin", "i64", "i32"}
 
 func c35GenType(r *Rng, depth int, dictPct int) string {
@@ -166,7 +166,7 @@ func bi(x int64) *big.Int { return big.NewInt(x) }
 
 // c35GenPtrStrings returns offset/length strings steering at the boundary classes of the bounds
 // arithmetic. live: (off,len) of slots believed allocated; size = total segment size.
-func c35GenPtrStrings(r *Rng, size int64, live [][2]int64) (string, string) {
+func c35GenPtrStrings(r *Rng, size int64, live [][2]int64, safeStart func() int64) (string, string) {
 	off, ln := new(big.Int), new(big.Int)
 	pickLive := func() [2]int64 {
 		if len(live) > 0 {
@@ -192,7 +192,7 @@ func c35GenPtrStrings(r *Rng, size int64, live [][2]int64) (string, string) {
 	case 2: // region ending around the segment end
 		o := pickLive()[0]
 		if r.Chance(30) {
-			o = int64(r.Range(4, int(size)))
+			o = safeStart()
 		}
 		off.SetInt64(o)
 		ln.SetInt64(size - o + int64(r.Range(-1, 1)))
@@ -228,7 +228,7 @@ func c35GenPtrStrings(r *Rng, size int64, live [][2]int64) (string, string) {
 		off.Exp(bi(10), bi(int64(r.Range(19, 40))), nil)
 		ln.SetInt64(1)
 	case 12: // anything in range
-		off.SetInt64(int64(r.Range(4, int(size)+10)))
+		off.SetInt64(safeStart() + int64(Pick(r, []int{0, 0, 0, int(size)})))
 		ln.SetInt64(int64(r.Range(-10, int(size)+10)))
 	default: // live offset, length reaching beyond the segment
 		s := pickLive()
@@ -326,11 +326,33 @@ func c35GenPtrMeta(r *Rng, offS, lenS string) string {
 type c35Slot struct {
 	off, ln int64
 	cols   string
+	rows   int
 }
 
 type c35Shadow struct {
-	size int64
-	tab  []c35Slot
+	size    int64
+	tab     []c35Slot
+	hw      int64 // highest byte any allocation has reached (data below may hold stale streams)
+	tailLow int64 // lowest byte a tail copy was written to (size when none)
+	rows    int   // rows of the batch being inserted
+}
+
+// safeStart: an offset whose bytes are either the start of a stream the harness wrote (a slot) or
+// never-written zeros. Pointers into the MIDDLE of a slot make arrow-go parse arbitrary bytes as a
+// schema/record-batch flatbuffer, whose vector lengths it allocates unchecked (non-recoverable
+// out-of-memory aborts were observed in fieldFromFB and in messageReader.Message).
+func (s *c35Shadow) safeStart(r *Rng) int64 {
+	lo := s.hw
+	if lo < 65536 {
+		lo = 65536
+	}
+	if len(s.tab) > 0 && (r.Bool() || lo >= s.tailLow) {
+		return s.tab[r.Intn(len(s.tab))].off
+	}
+	if lo >= s.tailLow {
+		return 65536
+	}
+	return lo + int64(r.Intn(int(s.tailLow-lo)))
 }
 
 func (s *c35Shadow) fit(sz int64, insert bool, cols string) (int64, bool) {
@@ -341,7 +363,7 @@ func (s *c35Shadow) fit(sz int64, insert bool, cols string) (int64, bool) {
 	for i, e := range s.tab {
 		if e.off-prev >= sz {
 			if insert {
-				s.tab = append(s.tab[:i], append([]c35Slot{{prev, sz, cols}}, s.tab[i:]...)...)
+				s.tab = append(s.tab[:i], append([]c35Slot{{prev, sz, cols, s.rows}}, s.tab[i:]...)...)
 			}
 			return prev, true
 		}
@@ -349,7 +371,10 @@ func (s *c35Shadow) fit(sz int64, insert bool, cols string) (int64, bool) {
 	}
 	if s.size-prev >= sz {
 		if insert {
-			s.tab = append(s.tab, c35Slot{prev, sz, cols})
+			s.tab = append(s.tab, c35Slot{prev, sz, cols, s.rows})
+			if prev+sz > s.hw {
+				s.hw = prev + sz
+			}
 		}
 		return prev, true
 	}
@@ -381,7 +406,7 @@ func c35Gen(g *Gen) {
 		dataSize := Pick(r, []int{4096, 4200, 5000, 6000, 8192, 8192, 12000, 20000, 20000, 40000})
 		size := int64(65536 + dataSize)
 		lines := []string{fmt.Sprintf("new %d", dataSize)}
-		sh := &c35Shadow{size: size}
+		sh := &c35Shadow{size: size, tailLow: size}
 		live := func() [][2]int64 {
 			out := make([][2]int64, len(sh.tab))
 			for j, e := range sh.tab {
@@ -400,6 +425,7 @@ func c35Gen(g *Gen) {
 				seed := uint64(r.Intn(1000))
 				lines = append(lines, fmt.Sprintf("write %s %d %d", cols, rows, seed))
 				stored, est, _ := c35StoredLen(cols, rows, seed)
+				sh.rows = rows
 				if _, ok := sh.fit(est, false, ""); ok {
 					sh.fit(stored, true, cols)
 				}
@@ -409,6 +435,7 @@ func c35Gen(g *Gen) {
 				seed := uint64(r.Intn(1000))
 				lines = append(lines, fmt.Sprintf("mwrite %s %d %d %s", cols, rows, seed, c35GenMeta(r)))
 				stored, est, bufsz := c35StoredLen(cols, rows, seed)
+				sh.rows = rows
 				if rows > 0 && bufsz >= c35MinBatchBytes {
 					if _, ok := sh.fit(est, false, ""); ok {
 						if _, ok := sh.fit(stored, true, cols); ok {
@@ -423,7 +450,7 @@ func c35Gen(g *Gen) {
 					lines = append(lines, "resolve 0")
 				}
 			case x < 80:
-				offS, lenS := c35GenPtrStrings(r, size, live())
+				offS, lenS := c35GenPtrStrings(r, size, live(), func() int64 { return sh.safeStart(r) })
 				rows := 0
 				if r.Chance(5) {
 					rows = r.Range(1, 3)
@@ -448,16 +475,28 @@ func c35Gen(g *Gen) {
 				lines = append(lines, "reset")
 				sh.tab = nil
 			case x < 93:
-				// a peer corrupts a few bytes of a slot: mostly in its last quarter (record-batch body,
-				// EOS), sometimes the low bytes of the first message-length field. (Arbitrary bytes in
-				// the flatbuffer metadata make arrow-go allocate gigabytes; see c35Huge.)
-				base, span := int64(65536), int64(300)
-				if len(sh.tab) > 0 {
-					e := sh.tab[r.Intn(len(sh.tab))]
-					base, span = e.off, e.ln
+				// a peer corrupts a few bytes of a slot that holds rows: the tail of the record-batch
+				// body (values/offsets; the 8 bytes before the EOS marker, or the last 8 bytes of the
+				// stripped layout), sometimes the low bytes of the first message-length field. Bytes
+				// inside flatbuffer metadata are left alone: arrow-go allocates vector lengths it
+				// reads from there without any bound (see safeStart / c35Huge).
+				var cand []c35Slot
+				for _, e := range sh.tab {
+					if e.rows > 0 && e.ln > 64 {
+						cand = append(cand, e)
+					}
 				}
-				o := base + span - 1 - int64(r.Intn(int(span/4)+1))
-				b := r.Bytes(r.Range(1, 4))
+				if len(cand) == 0 {
+					lines = append(lines, "kind "+c35GenCols(r, 3))
+					continue
+				}
+				e := cand[r.Intn(len(cand))]
+				base := e.off
+				o := base + e.ln - 16 + int64(r.Intn(8))
+				if c35OwnKind(e.cols) == "top" {
+					o = base + e.ln - 8 + int64(r.Intn(8))
+				}
+				b := r.Bytes(1)
 				if r.Chance(20) {
 					o = base + int64(Pick(r, []int{0, 1, 2, 3, 4, 5}))
 					b = []byte{byte(r.U64())}
@@ -486,6 +525,9 @@ func c35Gen(g *Gen) {
 				b.Release()
 				if len(st) > 0 && len(st) < dataSize {
 					o := size - int64(len(st))
+					if o < sh.tailLow {
+						sh.tailLow = o
+					}
 					lines = append(lines, fmt.Sprintf("poke %d %s", o, X(st)))
 					// the same exact region written with decorated numerals: "+N" is not a ParseUint
 					// numeral (offset) but is an Atoi numeral (length); leading zeros are fine in both
@@ -503,6 +545,47 @@ func c35Gen(g *Gen) {
 							c35ShowMeta([]string{c35KOff, c35KLen}, []string{strconv.FormatInt(o+d[0], 10), strconv.FormatInt(int64(len(st))+d[1], 10)})))
 					}
 				}
+			}
+		}
+		g.Case(lines...)
+	}
+	// sequences of batches on ONE segment whose schemas are pairwise "almost equal": same column
+	// names and type ids, different field metadata / schema metadata / fixed-size-binary width
+	// (everything Schema.Fingerprint() ignores), written and read back one after the other
+	for i, na := 0, g.N(60, 1200); i < na; i++ {
+		lines := []string{"new 60000"}
+		nc := r.Range(1, 3)
+		base := make([]string, nc)
+		for k := range base {
+			base[k] = Pick(r, []string{"i64", "str", "fsb4", "fsb4", "f64", "list,i32", "struct2,i64,str", "bin"})
+		}
+		variant := func() string {
+			cols := append([]string{}, base...)
+			for k := range cols {
+				if strings.HasPrefix(cols[k], "fsb") && r.Bool() {
+					cols[k] = Pick(r, []string{"fsb4", "fsb8"})
+				}
+				if r.Chance(50) {
+					cols[k] += ",~unit=" + Pick(r, []string{"s", "m", "kg", "metres"})
+				}
+				if r.Chance(15) {
+					cols[k] += ",~origin=" + Pick(r, []string{"a", "b"})
+				}
+			}
+			if r.Chance(40) {
+				cols = append(cols, "^"+Pick(r, []string{"owner=x", "owner=y", "rev=2"}))
+			}
+			return strings.Join(cols, ";")
+		}
+		nptr := 0
+		for k := r.Range(2, 5); k > 0; k-- {
+			rows, seed := Pick(r, []int{1, 3, 8, 17}), r.Intn(1000)
+			if r.Bool() {
+				lines = append(lines, fmt.Sprintf("write %s %d %d", variant(), rows, seed))
+			} else {
+				lines = append(lines, fmt.Sprintf("mwrite %s %d %d -", variant(), Pick(r, []int{8, 17, 40}), seed))
+				lines = append(lines, fmt.Sprintf("resolve %d", nptr))
+				nptr++
 			}
 		}
 		g.Case(lines...)
@@ -779,7 +862,9 @@ func c35Exec(c *Case) {
 				if rerr != nil {
 					c.Oracle("readback-failed-"+kind, fmt.Sprintf("%q: ReadBatch(%d,%d): %v", l, off, ln, rerr))
 				} else {
-					if !got.Schema().Equal(b.Schema()) || !array.RecordEqual(got, b) {
+					if !c35SchemaStrictEqual(got.Schema(), b.Schema()) {
+						c.Oracle("readback-schema-mismatch", fmt.Sprintf("%q: schema read back differs (names/types/widths/field or schema metadata): wrote %v read %v", l, b.Schema(), got.Schema()))
+					} else if !got.Schema().Equal(b.Schema()) || !array.RecordEqual(got, b) {
 						c.Oracle("readback-mismatch-"+kind, fmt.Sprintf("%q: batch read back differs: wrote %v read %v", l, b, got))
 					}
 					got.Release()
@@ -889,7 +974,9 @@ func c35Exec(c *Case) {
 				if err != nil {
 					c.Oracle("resolve-failed-on-intact-slot", fmt.Sprintf("%q: pointer to an unmodified slot did not resolve: %v", l, err))
 				} else {
-					if !out.Schema().Equal(p.orig.Schema()) || !array.RecordEqual(out, p.orig) {
+					if !c35SchemaStrictEqual(out.Schema(), p.orig.Schema()) {
+						c.Oracle("readback-schema-mismatch", fmt.Sprintf("%q: resolved schema differs (names/types/widths/field or schema metadata): wrote %v got %v", l, p.orig.Schema(), out.Schema()))
+					} else if !out.Schema().Equal(p.orig.Schema()) || !array.RecordEqual(out, p.orig) {
 						c.Oracle("resolve-mismatch-"+c35OwnKind(p.cols), fmt.Sprintf("%q: resolved batch differs from the batch written: wrote %v got %v", l, p.orig, out))
 					}
 					if !rel || relOff != p.off {
